@@ -211,6 +211,14 @@ func runOp(c driver.Case) driver.Result {
 			k++
 		}
 	}
+	// operators that put values of their own into the stream (not derived from a source item)
+	injects := false
+	for _, x := range append([]*catalog.Entry{e}, chain...) {
+		switch x.Family {
+		case "StartWith", "EndWith", "DefaultIfEmpty", "DefaultIfEmptyWithContext", "Catch", "OnErrorReturn", "OnErrorResumeNextWith", "ElementAtOrDefault", "FirstOrDefault", "LastOrDefault", "RepeatWith":
+			injects = len(chain) > 0
+		}
+	}
 	var samples []string
 	for i, x := range ev {
 		if x.CtxNil {
@@ -235,6 +243,11 @@ func runOp(c driver.Case) driver.Result {
 			}
 		}
 		if cur != nil && !asyncish && (x.Kind == rec.Next || strict) {
+			if x.Item == "" && injects {
+				// a value made up by an operator of the chain (StartWith's prefix, a default, a fallback…)
+				// and released later by a storing operator downstream: it never had a per-item context
+				continue
+			}
 			if x.Item == "" {
 				return fail("per-item-value-missing-in-"+kind, fmt.Sprintf("callback #%d (%s), delivered while source notification %s was being processed, carries no per-item context value", i, x.String(), cur.Tag))
 			}
